@@ -45,7 +45,11 @@ impl<'a, 'b> InterpStack<'a, 'b> {
                         if let Some(ctx) = self.ctx.cel {
                             // Allow for loaded programs to run as values
                             if let Some(prog) = ctx.get_program(&name) {
-                                return self.ctx.run_raw(prog.bytecode(), true).map(|x| x.into());
+                                // a failing program is a failed operand, not the end of
+                                // the referencing program
+                                return Ok(
+                                    CelValue::from(self.ctx.run_raw(prog.bytecode(), true)).into()
+                                );
                             }
                         }
 
@@ -319,23 +323,32 @@ impl<'a> Interpreter<'a> {
                 }
                 ByteCode::MkDict(size) => {
                     let mut entries = Vec::new();
+                    let mut bad_key = false;
 
                     for _ in 0..*size {
-                        let key = if let CelValue::String(key) = stack.pop_val()? {
-                            key
-                        } else {
-                            return Err(CelError::value("Only strings can be used as Object keys"));
-                        };
+                        let key = stack.pop_val()?;
+                        let value = stack.pop_val()?;
 
-                        entries.push((key, stack.pop_val()?));
+                        match key {
+                            CelValue::String(key) => entries.push((key, value)),
+                            _ => bad_key = true,
+                        }
                     }
 
-                    // The stack hands the entries back last to first; insert them in
-                    // source order so a repeated key keeps its last value, as the
-                    // compile time folding does.
-                    let map: HashMap<String, CelValue> = entries.into_iter().rev().collect();
+                    if bad_key {
+                        // an error value like the compile time folding yields, so that
+                        // the surrounding expression sees a failed operand
+                        stack.push_val(CelValue::from_err(CelError::value(
+                            "Only strings can be used as Object keys",
+                        )));
+                    } else {
+                        // The stack hands the entries back last to first; insert them in
+                        // source order so a repeated key keeps its last value, as the
+                        // compile time folding does.
+                        let map: HashMap<String, CelValue> = entries.into_iter().rev().collect();
 
-                    stack.push_val(map.into());
+                        stack.push_val(map.into());
+                    }
                 }
                 ByteCode::Index => {
                     let index = stack.pop_val()?;
@@ -428,10 +441,10 @@ impl<'a> Interpreter<'a> {
                             }
 
                             match callable {
-                                RsCallable::Function(func) => {
-                                    let arg_values = self.resolve_args(args)?;
-                                    stack.push_val(func(value, arg_values));
-                                }
+                                RsCallable::Function(func) => match self.resolve_args(args) {
+                                    Ok(arg_values) => stack.push_val(func(value, arg_values)),
+                                    Err(err) => stack.push_val(err.into()),
+                                },
                                 RsCallable::Macro(macro_) => {
                                     stack.push_val(self.call_macro(&value, &args, macro_)?);
                                 }
@@ -447,8 +460,11 @@ impl<'a> Interpreter<'a> {
                             match value {
                                 CelValue::Ident(func_name) => {
                                     if let Some(func) = self.get_func_by_name(&func_name) {
-                                        let arg_values = self.resolve_args(args)?;
-                                        stack.push_val(func(CelValue::from_null(), arg_values));
+                                        match self.resolve_args(args) {
+                                            Ok(arg_values) => stack
+                                                .push_val(func(CelValue::from_null(), arg_values)),
+                                            Err(err) => stack.push_val(err.into()),
+                                        }
                                     } else if let Some(macro_) = self.get_macro_by_name(&func_name)
                                     {
                                         stack.push_val(self.call_macro(
@@ -459,18 +475,23 @@ impl<'a> Interpreter<'a> {
                                     } else if let Some(CelValue::Type(type_name)) =
                                         self.get_type_by_name(&func_name)
                                     {
-                                        let arg_values = self.resolve_args(args)?;
-                                        stack.push_val(construct_type(type_name, arg_values));
+                                        match self.resolve_args(args) {
+                                            Ok(arg_values) => stack
+                                                .push_val(construct_type(type_name, arg_values)),
+                                            Err(err) => stack.push_val(err.into()),
+                                        }
                                     } else {
                                         stack.push_val(CelValue::from_err(CelError::runtime(
                                             &format!("{} is not callable", func_name),
                                         )));
                                     }
                                 }
-                                CelValue::Type(type_name) => {
-                                    let arg_values = self.resolve_args(args)?;
-                                    stack.push_val(construct_type(&type_name, arg_values));
-                                }
+                                CelValue::Type(type_name) => match self.resolve_args(args) {
+                                    Ok(arg_values) => {
+                                        stack.push_val(construct_type(&type_name, arg_values))
+                                    }
+                                    Err(err) => stack.push_val(err.into()),
+                                },
                                 other => stack.push_val(
                                     CelValue::from_err(CelError::runtime(&format!(
                                         "{:?} cannot be called",
@@ -489,17 +510,26 @@ impl<'a> Interpreter<'a> {
                     }
 
                     let mut working = String::new();
+                    let mut failure = None;
                     for seg in segments.into_iter().rev() {
-                        if let CelValue::String(s) = seg {
-                            working.push_str(&s)
-                        } else {
-                            return Err(CelError::Runtime(
-                                "Expected string from format string specifier".to_string(),
-                            ));
+                        match seg {
+                            CelValue::String(s) => working.push_str(&s),
+                            // the first segment that failed to convert fails the string
+                            CelValue::Err(err) => {
+                                failure.get_or_insert(err);
+                            }
+                            _ => {
+                                failure.get_or_insert(CelError::Runtime(
+                                    "Expected string from format string specifier".to_string(),
+                                ));
+                            }
                         }
                     }
 
-                    stack.push_val(CelValue::String(working));
+                    match failure {
+                        Some(err) => stack.push_val(CelValue::from_err(err)),
+                        None => stack.push_val(CelValue::String(working)),
+                    }
                 }
             };
         }
